@@ -119,6 +119,8 @@ def judge_point(ctx, d, x, y, kind="jacobi", enum=False):
     try:
         if kind == "jacobi":
             obj = PointJacobi(d.lib.curve, x, y, 1)
+        elif kind == "jacobi-ordered":
+            obj = PointJacobi(d.lib.curve, x, y, 1, d.n)
         elif kind == "jacobi-z":
             z = 3
             obj = PointJacobi(d.lib.curve, x * z * z % d.p, y * z * z * z % d.p, z)
@@ -202,6 +204,7 @@ def toy1_sweep(ctx, cname, part, nparts, prefixes):
         for y in range(256):
             judge_string(ctx, d, bytes((x, y)), enum=True)
             judge_point(ctx, d, x, y, "jacobi", enum=True)
+            judge_point(ctx, d, x, y, "jacobi-ordered", enum=True)
     for pf in prefixes:
         for x in range(part, 256, nparts):
             for y in range(256):
@@ -349,6 +352,7 @@ def small_subgroup_112r2(ctx, count):
                          bytes((6 + (P[1] & 1),)) + xb + yb):
                 judge_string(ctx, d, data)
             judge_point(ctx, d, P[0], P[1], "jacobi")
+            judge_point(ctx, d, P[0], P[1], "jacobi-ordered")
             judge_der(ctx, d, rder.enc_spki(oid, b"\x04" + xb + yb), hint="order-%d%s" % (o, "" if k == 0 else "n"))
             ctx.event("secp112r2:order-%d%s" % (o, "" if k == 0 else "*n"))
     ctx.sample({"kind": "secp112r2-small-subgroup", "orders": sorted(found), "note": "points of order 2, 4, 2n, 4n"})
